@@ -9,16 +9,27 @@ import (
 )
 
 // time.After / time.Sleep are owned by the harness: requested durations are
-// logged; the returned channel is ready at once unless zzAfterBlock is set.
+// logged; the returned channel is ready at once unless zzAfterBlock is set. A
+// timer armed with a non-positive duration ("due immediately") is not a wait:
+// it fires at once in either mode and is counted in zzAfterZero; zzWaits has
+// the positive ones only (aligned with zzAfterChans when timers are held back).
 var (
+	zzAfterZero  int
+	zzWaits      []time.Duration
 	zzAfterLog   []time.Duration
 	zzAfterBlock bool
 	zzAfterChans []chan time.Time
 )
 
 func zzStub_time_After(d time.Duration) <-chan time.Time {
-	zzAfterLog = append(zzAfterLog, d)
 	ch := make(chan time.Time, 1)
+	zzAfterLog = append(zzAfterLog, d)
+	if zzConcrete(d) && d <= 0 {
+		zzAfterZero++
+		ch <- time.Time{}
+		return ch
+	}
+	zzWaits = append(zzWaits, d)
 	if zzAfterBlock {
 		zzAfterChans = append(zzAfterChans, ch)
 	} else {
@@ -30,12 +41,18 @@ func zzStub_time_After(d time.Duration) <-chan time.Time {
 // time.NewTimer (with Stop / Reset) is the same environment as time.After: the
 // harness owns the channel; Stop and Reset report "was still pending".
 func zzStub_time_NewTimer(d time.Duration) *time.Timer {
-	zzAfterLog = append(zzAfterLog, d)
 	ch := make(chan time.Time, 1)
-	if zzAfterBlock {
-		zzAfterChans = append(zzAfterChans, ch)
-	} else {
+	zzAfterLog = append(zzAfterLog, d)
+	if zzConcrete(d) && d <= 0 {
+		zzAfterZero++
 		ch <- time.Time{}
+	} else {
+		zzWaits = append(zzWaits, d)
+		if zzAfterBlock {
+			zzAfterChans = append(zzAfterChans, ch)
+		} else {
+			ch <- time.Time{}
+		}
 	}
 	t := &time.Timer{C: ch}
 	if zzTimerChans == nil {
@@ -97,8 +114,13 @@ func zzFireAfterFuncs() {
 // held back by the harness, the timer fires again at once.
 func zzStub_time_Timer_Reset(t *time.Timer, d time.Duration) bool {
 	zzAfterLog = append(zzAfterLog, d)
+	if zzConcrete(d) && d <= 0 {
+		zzAfterZero++
+	} else {
+		zzWaits = append(zzWaits, d)
+	}
 	if ch := zzTimerChans[t]; ch != nil {
-		if zzAfterBlock {
+		if zzAfterBlock && !(zzConcrete(d) && d <= 0) {
 			// held back: the harness releases it like a fresh timer
 			zzAfterChans = append(zzAfterChans, ch)
 		} else {
@@ -136,7 +158,7 @@ func zzCfg(name string) config.Interface {
 }
 
 func zzAdvertiser(rec *zzRec, st *zzState, cfg config.Interface) *Advertiser {
-	return &Advertiser{cctx: zzNewContext(rec, st), cfg: cfg, terminate: func() bool { return true }, minDelayBetweenRAs: 3 * time.Second}
+	return NewAdvertiser(zzNewContext(rec, st), cfg, nil, nil, func() bool { return true })
 }
 
 // zzSameExceptLifetime: ra equals the RA the configuration describes, with the
